@@ -436,7 +436,7 @@ func c01Index(c *fw.Ctx) {
 // c01ConcurrentIndex: recipient lookups run while sibling filters are subscribed and unsubscribed.
 // Subscriptions that are never touched must be reported by every lookup, exactly once.
 func c01ConcurrentIndex(c *fw.Ctx) {
-	rounds := c.Pick(4, 30)
+	rounds := c.Pick(8, 40)
 	for r := 0; r < rounds; r++ {
 		rep := kit.NewReplica(1)
 		stable := map[string]bool{}
@@ -482,8 +482,8 @@ func c01ConcurrentIndex(c *fw.Ctx) {
 			go func(g int) {
 				defer mw.Done()
 				rg := c.SubRng(fmt.Sprintf("c01/conc/%d", r), g)
-				for i := 0; i < 1500; i++ {
-					f := []string{"mp/a/b", "mp/a/x", "mp/a/y/z", "mp/a/+", "mp/b/b", "mp/a"}[rg.Intn(6)]
+				for i := 0; i < 2500; i++ {
+					f := []string{"mp/a/b", "mp/a/x", "mp/a/y/z", "mp/a/+", "mp/b/b", "mp/a", fmt.Sprintf("mp/a/n%d", rg.Intn(40)), fmt.Sprintf("mp/n%d/b", rg.Intn(40))}[rg.Intn(8)]
 					sid := fmt.Sprintf("vol%d-%d", g, rg.Intn(3))
 					if rg.Intn(2) == 0 {
 						rep.S.Subscriptions().Create(sid, []byte(f), 0)
